@@ -18,6 +18,12 @@ theorem C14_total (cfg : String) (hcfg : cfg ∈ supportedConfigs) (b : ABuf) :
   obtain ⟨ps, h1, h2⟩ := factory_known cfg hcfg
   exact ⟨ps, h1, packetParse_total ps b h2⟩
 
+/-- … and every stack a caller builds by hand from the library's header parsers — any number of them, in any order,
+    classes repeated, with or without prediction, CoAP in either option mode -/
+theorem C14_any_stack (ps : List ParserInst) (hk : ∀ p ∈ ps, KnownParser p) (b : ABuf) :
+    (∃ p, packetParse (fuelFor b) ps b = .ok p) ∨ packetParse (fuelFor b) ps b = .error .parserError :=
+  packetParse_total ps b hk
+
 /-- each header parser on its own, with or without prediction, CoAP in either option mode -/
 theorem C14_header (p : ParserInst) (hk : KnownParser p) (b : ABuf) :
     (∃ h, runParser (fuelFor b) p b = .ok h) ∨ runParser (fuelFor b) p b = .error .parserError :=
